@@ -9,7 +9,7 @@ git -C /repo archive HEAD | tar -x -C "$scratch"
 rc_all=0
 for id in "$@"; do
   VERIF_REPO="$scratch" LCVERIF_EVIDENCE_DIR="$scratch/.ev" LCVERIF_REPLAY_DIR="$scratch/.replays" \
-    /verif/check "$id" --tier "${TIER:-quick}" 2>&1 | grep -E "^(VIOLATION|  facet|KNOWN-FINDING|INCONCLUSIVE|C[0-9]+ tier)" | cut -c1-420 | head -${LINES_MAX:-8}
+    "${CHECK:-/verif/check}" "$id" --tier "${TIER:-quick}" 2>&1 | grep -E "^(VIOLATION|  facet|KNOWN-FINDING|INCONCLUSIVE|C[0-9]+ tier)" | cut -c1-420 | head -${LINES_MAX:-8}
   rc=${PIPESTATUS[0]}
   echo "== $id exit=$rc"
   [ "$rc" != 0 ] && rc_all=$rc
